@@ -297,11 +297,15 @@ func (a *Box2) lineIntersect(l *Line2) *Line2 {
 		tSet = tAppend(tSet, (a.Max.X-u.X)*k)
 	}
 
+	// Far from the origin a few ulps of a coordinate exceed the tolerance:
+	// scale it with the magnitude of the box coordinates.
+	tol := math.Max(tolerance, 1e-14*math.Max(a.Min.Abs().MaxComponent(), a.Max.Abs().MaxComponent()))
+
 	// filter the t-values
 	var pSet []v2.Vec
 	for _, t := range tSet {
 		p := u.Add(v.MulScalar(t))
-		p = a.Snap(p, tolerance)
+		p = a.Snap(p, tol)
 		// is the point in the box?
 		if !a.Contains(p) {
 			continue
@@ -311,7 +315,7 @@ func (a *Box2) lineIntersect(l *Line2) *Line2 {
 		// the same (snapped) point: compare the points as well.
 		dup := false
 		for _, q := range pSet {
-			if q.Equals(p, tolerance) {
+			if q.Equals(p, tol) {
 				dup = true
 			}
 		}
